@@ -42,6 +42,14 @@ Ltac bdestruct :=
          | |- context [?a =? ?b] => destruct (Nat.eqb_spec a b)
          end; simpl.
 
+(* the same, pruning contradictory branches as soon as they appear *)
+Ltac bprune :=
+  repeat (match goal with
+          | |- context [?a <? ?b] => destruct (Nat.ltb_spec a b)
+          | |- context [?a <=? ?b] => destruct (Nat.leb_spec a b)
+          | |- context [?a =? ?b] => destruct (Nat.eqb_spec a b)
+          end; try (exfalso; lia); simpl).
+
 Section C11.
 Variable S : SOps.
 Variable junk : T S.
@@ -699,13 +707,13 @@ Proof.
       change (mrows S (e_zero S dold dadd)) with dold. change (mcols S (e_zero S dold dadd)) with dadd.
       rewrite Rq, Cq, Hy by assumption.
       destruct (Nat.eq_dec i n) as [->|NE]; [destruct (le_lt_dec dold k)|].
-      + bdestruct; try lia; try reflexivity; try (apply get_e_zero; lia); try (f_equal; lia).
-      + bdestruct; try lia; try reflexivity.
+      + bprune; try reflexivity; try (apply get_e_zero; lia); try (f_equal; lia).
+      + bprune; try reflexivity.
       + assert (OUT : i * dcov' + k < n * dcov' + dold \/ n * dcov' + dold + dadd <= i * dcov' + k).
         { destruct (le_lt_dec (n * dcov' + dold) (i * dcov' + k)); [|left; lia].
           destruct (le_lt_dec (n * dcov' + dold + dadd) (i * dcov' + k)); [right; lia|].
           exfalso. apply NE. apply (block_col_in dcov' dold n i k); lia. }
-        bdestruct; try lia; try reflexivity. }
+        bprune; try reflexivity. }
   destruct H as [H1 H2]. split; [exact H1|]. intros i k r Hi Hk Hr. rewrite H2 by assumption.
   destruct (Nat.ltb_spec i comps); [reflexivity|lia].
 Qed.
